@@ -37,7 +37,7 @@ func genCfg(t *rapid.T) envCfg {
 		DupKey:      rapid.IntRange(0, 5).Draw(t, "dup") == 0,
 		Threshold:   rapid.IntRange(0, 3).Draw(t, "threshold"),
 		TotalShares: rapid.SampledFrom([]int{0, 0, 0, 1, 2, 3, 4, 5}).Draw(t, "total"),
-		Payload:     rapid.SliceOfN(rapid.Byte(), 1, 60).Draw(t, "payload"),
+		Payload:     rapid.OneOf(rapid.SliceOfN(rapid.Byte(), 1, 60), rapid.SliceOfN(rapid.Byte(), 1, 60), rapid.SliceOfN(rapid.Byte(), 61, 6000)).Draw(t, "payload"),
 		Ctx:         rapid.SampledFrom([]string{"", "ctx", "app 2026 envelope v1", "12:x"}).Draw(t, "ctx"),
 		EnvID:       rapid.SampledFrom([]string{"", "", "id-1", "3:a"}).Draw(t, "envid"),
 		BadIndex:    rapid.IntRange(0, 19).Draw(t, "bad") == 0,
